@@ -8,6 +8,8 @@ from engine.model import src, stmt_key, walk_no_nested, dotted
 from engine.util import attr_accesses, with_exprs, calls_with_nodes, where, own_nodes
 
 RULES = {
+    "R-12.8": "a `with zone.writer()` block always ends its transaction: Transaction.__exit__ commits iff no exception, otherwise rolls back - for every exception class (C10 R-10.4 adopted), so the write slot is released and the next waiter woken",
+    "R-12.7": "inside the package a write transaction obtained from `.writer(...)` is entered by `with` at once, or kept on an object whose __exit__ ends it; when it is first bound to a local, no `raise`/`return` is reachable between the call and the `with` that ends it (the slot would stay taken and every later writer block for ever)",
     "R-12.6": "a B-tree zone writer starts from the newest committed version (C20 R-20.2 newest-base adopted): otherwise the final zone is not the serial application of the commits in admission order",
     "R-12.1": "guarded-by: _versions/_readers/_write_txn/_write_waiters/_write_event/_pruning_policy are touched only under _version_lock, in *_unlocked methods, or in __init__; *_unlocked methods are called only from such places",
     "R-12.2": "nothing that can block (Event.wait, sleep, deferred version setup) runs while _version_lock is held",
@@ -239,6 +241,47 @@ def run(model, rep, tier):
     rep.assume("threading.Lock / threading.Event semantics; CPython deque operations are atomic")
     rep.assume("R-12.5 covers writer(); an exception raised by the immutable-version factory inside _end_transaction (before _commit_version) is not covered")
     rep.share(model, "C20", {"R-20.2"}, "R-12.6", "the version a writer edits is set up after admission from the version list", only=lambda o: o.stmt in ("newest-base", "same-base"))
+    # ---------------------------------------------------------------- R-12.7
+    n_w = 0
+    for f7 in sorted(model.all_functions(), key=lambda g: g.qualname):
+        if not f7.module.name.startswith("dns.") or f7.name == "writer":
+            continue
+        calls = [c for c in ast.walk(f7.node) if isinstance(c, ast.Call) and isinstance(c.func, ast.Attribute) and c.func.attr == "writer"]
+        if not calls:
+            continue
+        c7 = None
+        for c in calls:
+            n_w += 1
+            holder = None
+            for n in ast.walk(f7.node):
+                if isinstance(n, (ast.With, ast.AsyncWith)) and any(i.context_expr is c for i in n.items):
+                    holder = ("with", n)
+                elif isinstance(n, ast.Assign) and n.value is c:
+                    holder = ("attr" if isinstance(n.targets[0], ast.Attribute) else "local", n)
+            if holder is None:
+                rep.bad("R-12.7", f7.qualname, where(f7, c), f"`{src(c)}` is neither entered by `with` nor bound: nothing ends the write transaction", stmt="writer-unbound")
+            elif holder[0] == "with":
+                rep.ok("R-12.7", f7.qualname, where(f7, c), f"`with {src(c)}`: ended by Transaction.__exit__", stmt="writer-with")
+            elif holder[0] == "attr":
+                tgt = src(holder[1].targets[0])
+                owner = f7.cls
+                ends = owner is not None and any(m.name == "__exit__" and (tgt + ".rollback()" in src(m.node) or tgt + ".commit()" in src(m.node)) for m in model.all_functions() if m.cls is owner)
+                rep.check(ends, "R-12.7", f7.qualname, where(f7, c), f"kept in `{tgt}`; {owner.name if owner else '?'}.__exit__ ends it",
+                          f"kept in `{tgt}` but the owning class has no __exit__ that commits or rolls it back", stmt="writer-owned " + tgt)
+            else:
+                L = holder[1].targets[0].id
+                c7 = c7 or CFG(f7.node, implicit_exc=False)
+                a_nodes = [n.id for n in c7.stmts() if n.ast is holder[1]]
+                w_nodes = [n.id for n in c7.stmts() if n.kind == "with" and any(isinstance(i.context_expr, ast.Name) and i.context_expr.id == L for i in n.ast.items)]
+                r = c7.reachable(a_nodes, blocked=w_nodes)
+                leaks = [c7.nodes[i] for i in r if isinstance(c7.nodes[i].ast, (ast.Raise, ast.Return)) or i in (c7.exit.id, c7.rexit.id)]
+                leaks = sorted([n for n in leaks if n.ast is not None], key=lambda n: n.lineno) or leaks
+                rep.check(bool(w_nodes) and not leaks, "R-12.7", f7.qualname, where(f7, leaks[0].ast if leaks and leaks[0].ast is not None else c),
+                          f"`{L} = {src(c)}` reaches `with {L}` on every path",
+                          (f"after `{L} = {src(c)}` the function can leave through `{src(leaks[0].ast)[:50]}` (line {leaks[0].lineno}) without entering `with {L}`: the zone's write slot stays taken and every later writer waits for ever"
+                           if leaks and leaks[0].ast is not None else f"`{L}` is never entered by `with` on some path"), stmt="writer-local " + L)
+    rep.floor("R-12.7", n_w, 5)
+    rep.share(model, "C10", {"R-10.4"}, "R-12.8", "versioned.Zone._end_write (slot release and wake-up) runs only from Transaction._end, reached from __exit__/commit/rollback")
     rep.meta["explanation"] = (
         "Guarded-by analysis over the whole package for the six admission/retention fields of dns.versioned.Zone, call-site check of the "
         "*_unlocked convention, transitive no-blocking-under-lock check, and CFG (post-)dominance rules for admission test, wake-up "
@@ -247,6 +290,10 @@ def run(model, rep, tier):
 
 
 WITNESSES = [
+    {"id": "c12-sign-zone-raise-after-writer", "rule": "R-12.7", "file": "dns/dnssec.py", "expect": "fires",
+     "old": "        cm = zone.writer()\n\n", "new": "        cm = zone.writer()\n\n    if not keys and add_dnskey:\n        raise ValueError(\"no keys\")\n\n"},
+    {"id": "c12-exit-skips-rollback-for-base-exceptions", "rule": "R-12.8", "file": "dns/transaction.py", "expect": "fires",
+     "old": "            else:\n                self.rollback()\n        return False", "new": "            elif issubclass(exc_type, Exception):\n                self.rollback()\n        return False"},
     {"id": "c12-end-write-no-lock", "rule": "R-12.1", "file": "dns/versioned.py", "expect": "fires",
      "old": "    def _end_write(self, txn):\n        with self._version_lock:\n            self._end_write_unlocked(txn)",
      "new": "    def _end_write(self, txn):\n        self._end_write_unlocked(txn)"},
